@@ -112,15 +112,18 @@ Definition wallet_matches (P : prims) (w : wallet) (key addr id : bytes) (meta :
   && match GetID w with Some u => bytes_eqb u id | None => false end
   && json_eqb (JObj (Metadata w)) (canon meta).
 
-(* every non-nil entry of [m] is an entry of [sup] *)
+(* every non-nil entry of [m] whose key is not one of the protected core fields is an entry of [sup] *)
+Definition protected_key (k : bytes) : bool :=
+  bytes_eqb k (ascii_bytes "id") || bytes_eqb k (ascii_bytes "version") || bytes_eqb k (ascii_bytes "crypto").
 Fixpoint meta_included (m : jmap) (sup : jmap) : bool :=
   match m with
   | [] => true
   | (k, v) :: t =>
-      match v with
-      | JNull => true
-      | _ => match mget k sup with Some v' => json_eqb (canon v) v' | None => false end
-      end && meta_included t sup
+      (if protected_key k then true else
+       match v with
+       | JNull => true
+       | _ => match mget k sup with Some v' => json_eqb (canon v) v' | None => false end
+       end) && meta_included t sup
   end.
 
 Definition id_of_doc (P : prims) (doc : json) : option bytes :=
